@@ -1,4 +1,5 @@
 import DaeVerif.C18.Model
+import DaeVerif.C18.Conn
 import DaeVerif.Common.Proto
 /-! Line-protocol driver for C18 (op grammar: see harness/overlay/control/c18_test.go).
 Strings travel hex-encoded (`-` = empty string). The driver is stateful: it threads the `World`. -/
@@ -30,12 +31,85 @@ def parseInt? (tok : String) : Option Int :=
   if tok.startsWith "-" then (tok.drop 1).toNat?.map fun n => -(n : Int) else tok.toNat?.map fun n => (n : Int)
 
 /-- apply the probe that `ChooseDialTarget` started (the harness waits for the goroutine). -/
-def afterProbe (w : World) (pr : Option Str) (answers : List Ans) : World × Nat :=
+def afterProbe (pend : List Str) (w : World) (pr : Option Str) (answers : List Ans) : World × Nat :=
   match pr with
   | none => (w, 0)
-  | some d => (probe w d answers, probeCalls w answers)
+  | some d =>
+    -- a probe of this name is blocked in its resolver call: the new trigger joins it (singleflight)
+    if pend.contains d then (w, 0) else (probe w d answers, probeCalls w answers)
 
-def handle (w : World) (line : String) : World × String :=
+/-- `m=<name>/<mark of the kernel tuple>/<mark of the routing answer>` -/
+def parseMeta (tok : String) : String × Option (Nat × Nat) :=
+  match (String.ofList (tok.toList.drop 2)).splitOn "/" with
+  | [n, a, b] => match a.toNat?, b.toNat? with
+    | some a, some b => (n, some (a, b))
+    | _, _ => (n, none)
+  | n :: _ => (n, none)
+  | [] => ("", none)
+
+/-- the attempts of one `routeDial`, printed as the harness prints what the node dialers saw. -/
+def fmtDials (outs : List DialOut) (mk : Option Nat) (probed : Bool) (at? : Option Int) (showIp : Bool := true) : String :=
+  let n := outs.length
+  let fmt (io : Nat × DialOut) : String :=
+    match io.2.outbound with
+    | none => "err"
+    | some ob =>
+      s!"ob={ob} t={hexOfStr io.2.target}" ++
+        (if io.1 + 1 = n then (if showIp then s!" ip={boolStr io.2.dialIp}" else "") ++
+          (match mk with | some m => s!" mk={m}" | none => "") else "")
+  let isErr := match outs.getLast? with | some o => o.outbound.isNone | none => true
+  " ; ".intercalate ((List.range n).zip outs |>.map fmt) ++
+    (if isErr then "" else s!" probe={boolStr probed}") ++
+    (match at? with | some t => s!" at={t}" | none => "")
+
+/-- driver state: the world with its probes in flight, the sniff negative cache, tunables -/
+structure Drv where
+  s : Sys := {}
+  sn : SniffNeg := []
+  cfg : SniffCfg := {}
+  soMark : Nat := 0
+  /-- total delay of the routing-tuple lookup retries in `handleConn` (ns) -/
+  retryNs : Nat := 0
+  /-- clock at the start of the last `conn` op -/
+  connStart : Int := 0
+
+def parsePayload? (kind : String) (raw : Str) : Option Payload :=
+  match kind with
+  | "silent" => some .silent
+  | "opaque" => some .opaque
+  | "http" => some (.http (some raw))
+  | "httpnohost" => some (.http none)
+  | "tls" => some (.tls (some raw))
+  | "tlsnosni" => some (.tls none)
+  | _ => none
+
+/-- one `routeDial` as the harness observes it: the attempts, the socket mark of the last one,
+whether some attempt made the probe call a resolver. `fail` = "1": the node fails the first dial
+with network-unreachable (forced unavailable, one retry); "2": with an error that is not — `routeDial`
+gives up after that one dial. -/
+def runDial (soMark : Nat) (pend : List Str) (w : World) (ob : Nat) (dst : Dst) (d : Str)
+    (route : Str → Option Nat) (nOut : Nat) (fail : String) (marks : Option (Nat × (Str → Nat)))
+    (ans : List Ans) : World × List DialOut × Option Nat × Bool :=
+  let settle : World → Option Str → World := fun w pr => (afterProbe pend w pr ans).1
+  let (w2, outs) :=
+    if fail == "2" then
+      let (wr, o1) := chooseProxyDialer w ob dst d route nOut
+      let wr := settle wr o1.probeReq
+      (wr, if o1.outbound.isNone then [o1] else [o1, { o1 with outbound := none }])
+    else routeDial w ob dst d route nOut (fail == "1") settle
+  -- did any attempt make the probe call a resolver?
+  let (wa, o1) := chooseProxyDialer w ob dst d route nOut
+  let p1 := (afterProbe pend wa o1.probeReq ans).2 > 0
+  let wb := settle wa o1.probeReq
+  let p2 := if outs.length > 1 then
+      let (wc, o2) := chooseProxyDialer wb ob dst d route nOut
+      (afterProbe pend wc o2.probeReq ans).2 > 0
+    else false
+  let mk := marks.map fun (pm, rmF) =>
+    if outs.length > 1 then dialMark wb ob dst d pm soMark rmF else dialMark w ob dst d pm soMark rmF
+  (w2, outs, mk, p1 || p2)
+
+def handleW (st : Drv) (pend : List Str) (w : World) (line : String) : World × String :=
   match words line with
   | ["mode", m] =>
     match parseMode? m with
@@ -55,6 +129,22 @@ def handle (w : World) (line : String) : World × String :=
       let r := dnsUpdate w h q ttl key
       (r.1, if r.2 then "ok" else "bypass")
     | _, _, _, _ => (w, "bad-op")
+  | ["dns", h, q, ttl, key, fault] =>
+    -- fault injection: f1 = the NewCache hook fails (nothing is stored); f2 = the cache-access callback
+    -- (BatchUpdateDomainRouting) fails AFTER the entry was stored and remembered
+    match strOfHex? h, q.toNat?, parseInt? ttl, strOfHex? key with
+    | some h, some q, some ttl, some key =>
+      let r := dnsUpdateF w h q ttl key (if fault == "f1" then .newCache else .accessCallback)
+      (r.1, if r.2.2 then "err" else "bypass")
+    | _, _, _, _ => (w, "bad-op")
+  | ["dnsresp", resp, hasq, rok, h, q, ttl, key, fault] =>
+    match strOfHex? h, q.toNat?, strOfHex? key with
+    | some h, some q, some key =>
+      let t : List Nat := if ttl = "-" then [] else (ttl.splitOn ",").filterMap (·.toNat?)
+      let gate := resp == "1" && hasq == "1" && rok == "1"
+      let r := dnsResp w (resp == "1") (hasq == "1") (rok == "1") h q t key
+      if !gate then (w, "skip") else if !r.2 then (w, "bypass") else if fault == "f1" then (w, "err") else (r.1, "err")
+    | _, _, _ => (w, "bad-op")
   | ["dnsresp", resp, hasq, rok, h, q, ttl, key] =>
     match strOfHex? h, q.toNat?, strOfHex? key with
     | some h, some q, some key =>
@@ -71,6 +161,9 @@ def handle (w : World) (line : String) : World × String :=
     match strOfHex? k with
     | some k => (dnsEvict w k, "ok")
     | none => (w, "bad-op")
+  | ["reload", _fault] =>
+    -- the cache-access callback fails for every restored entry: logged, the entry stays stored and remembered
+    (step (step w .dnsClose) (.dnsRestore w.cache), s!"restored={w.cache.length}")
   | ["reload"] =>
     -- CloneCacheForReload of the old store, RestoreReloadCache into a fresh one
     (step (step w .dnsClose) (.dnsRestore w.cache), s!"restored={w.cache.length}")
@@ -91,7 +184,7 @@ def handle (w : World) (line : String) : World × String :=
     match ob.toNat?, parseDst? dst, strOfHex? d, ans.mapM parseAns? with
     | some ob, some dst, some d, some ans =>
       let (w1, c) := chooseDialTarget w ob dst d
-      let (w2, calls) := afterProbe w1 c.probeReq ans
+      let (w2, calls) := afterProbe pend w1 c.probeReq ans
       (w2, s!"t={hexOfStr c.target} rr={boolStr c.reroute} ip={boolStr c.dialIp} probe={boolStr (calls > 0)}")
     | _, _, _, _ => (w, "bad-op")
   | "cdt2" :: ob :: dst :: d :: ans =>
@@ -100,7 +193,7 @@ def handle (w : World) (line : String) : World × String :=
     | some ob, some dst, some d, some ans =>
       let (w1, c1) := chooseDialTarget w ob dst d
       let (w2, c2) := chooseDialTarget w1 ob dst d
-      let (w3, calls) := afterProbe w2 c1.probeReq ans
+      let (w3, calls) := afterProbe pend w2 c1.probeReq ans
       let f (c : Choice) := s!"t={hexOfStr c.target} rr={boolStr c.reroute} ip={boolStr c.dialIp}"
       (w3, s!"{f c1} ; {f c2} probe={boolStr (calls > 0)}")
     | _, _, _, _ => (w, "bad-op")
@@ -119,36 +212,13 @@ def handle (w : World) (line : String) : World × String :=
       | some .domainCao => (w, "mode=domain++")
       | none => (w, "err")
     | none => (w, "bad-op")
-  | "dial" :: ob :: dst :: d :: rt :: nOut :: fail :: _meta :: ans =>
+  | "dial" :: ob :: dst :: d :: rt :: nOut :: fail :: mta :: ans =>
     match ob.toNat?, parseDst? dst, strOfHex? d, nOut.toNat?, ans.mapM parseAns? with
     | some ob, some dst, some d, some nOut, some ans =>
       let route : Str → Option Nat := fun _ => rt.toNat?
-      let settle : World → Option Str → World := fun w pr => (afterProbe w pr ans).1
-      -- fail = 2: the node refuses the first dial with an error that is NOT network-unreachable /
-      -- address-not-suitable: routeDial gives up after that one dial (no retry, no fallback)
-      let (w2, outs) :=
-        if fail == "2" then
-          let (wr, o1) := chooseProxyDialer w ob dst d route nOut
-          let wr := settle wr o1.probeReq
-          (wr, if o1.outbound.isNone then [o1] else [o1, { o1 with outbound := none }])
-        else routeDial w ob dst d route nOut (fail == "1") settle
-      -- did any attempt make the probe call a resolver?
-      let (wa, o1) := chooseProxyDialer w ob dst d route nOut
-      let p1 := (afterProbe wa o1.probeReq ans).2 > 0
-      let p2 := if outs.length > 1 then
-          let wb := settle wa o1.probeReq
-          let (wc, o2) := chooseProxyDialer wb ob dst d route nOut
-          (afterProbe wc o2.probeReq ans).2 > 0
-        else false
-      let n := outs.length
-      let fmt (io : Nat × DialOut) : String :=
-        match io.2.outbound with
-        | none => "err"
-        | some ob =>
-          s!"ob={ob} t={hexOfStr io.2.target}" ++ (if io.1 + 1 = n then s!" ip={boolStr io.2.dialIp}" else "")
-      let isErr := match outs.getLast? with | some o => o.outbound.isNone | none => true
-      -- whether a probe was started is not compared when the dial fails anyway
-      (w2, " ; ".intercalate ((List.range n).zip outs |>.map fmt) ++ (if isErr then "" else s!" probe={boolStr (p1 || p2)}"))
+      let marks := (parseMeta mta).2.map fun (pm, rm) => (pm, fun (_ : Str) => rm)
+      let (w2, outs, mk, probed) := runDial st.soMark pend w ob dst d route nOut fail marks ans
+      (w2, fmtDials outs mk probed none)
     | _, _, _, _, _ => (w, "bad-op")
   | ["norm", r] =>
     match strOfHex? r with
@@ -214,11 +284,102 @@ def handle (w : World) (line : String) : World × String :=
     | some ob, some dst, some d, some nOut, some ans =>
       let route : Str → Option Nat := fun _ => rt.toNat?
       let (w1, o) := chooseProxyDialer w ob dst d route nOut
-      let (w2, calls) := afterProbe w1 o.probeReq ans
+      let (w2, calls) := afterProbe pend w1 o.probeReq ans
       match o.outbound with
       | none => (w2, "err")
       | some ob => (w2, s!"ob={ob} t={hexOfStr o.target} ip={boolStr o.dialIp} probe={boolStr (calls > 0)}")
     | _, _, _, _, _ => (w, "bad-op")
   | _ => (w, "bad-op")
 
-def main : IO Unit := lineLoopS ({} : World) handle
+def setW (st : Drv) (w : World) : Drv := { st with s := { st.s with w := w } }
+
+def handle (st : Drv) (line : String) : Drv × String :=
+  let w := st.s.w
+  let pend := st.s.pending.map (·.1)
+  match words line with
+  | ["reset", negttl, minttl] =>
+    match negttl.toNat?, minttl.toNat? with
+    | some n, some m =>
+      ({ st with s := { w := { negTtl := (n : Int), minTtl := m }, pending := [] }, sn := [], connStart := 0 }, "ok")
+    | _, _ => (st, "bad-op")
+  | ["reset"] => ({ st with s := {}, sn := [], connStart := 0 }, "ok")
+  | ["tun", thr, ttl, ports, somark, retry] =>
+    -- tunables of the running code that the property does not fix
+    match thr.toNat?, ttl.toNat?, (ports.splitOn ",").mapM (·.toNat?), somark.toNat?, retry.toNat? with
+    | some thr, some ttl, some ports, some sm, some rt =>
+      ({ st with cfg := { thr := thr, ttl := (ttl : Int), excluded := ports }, soMark := sm, retryNs := rt }, "ok")
+    | _, _, _, _, _ => (st, "bad-op")
+  | ["cdth", ob, dst, d] =>
+    -- ChooseDialTarget while the resolvers of this name do not answer yet: the probe stays in flight
+    match ob.toNat?, parseDst? dst, strOfHex? d with
+    | some ob, some dst, some d =>
+      let (s1, c) := Sys.choose st.s ob dst d
+      let started := s1.pending.length > st.s.pending.length
+      ({ st with s := s1 }, s!"t={hexOfStr c.target} rr={boolStr c.reroute} ip={boolStr c.dialIp} started={boolStr started}")
+    | _, _, _ => (st, "bad-op")
+  | "rel" :: d :: ans =>
+    match strOfHex? d, ans.mapM parseAns? with
+    | some d, some ans => ({ st with s := Sys.finish st.s d ans }, "ok")
+    | _, _ => (st, "bad-op")
+  | ["relx", d] =>
+    -- the probe's context expired (realDomainProbeTimeout) or was cancelled: both lookups failed
+    match strOfHex? d with
+    | some d => ({ st with s := Sys.finish st.s d (List.replicate st.s.w.nboot ⟨false, false, true, true⟩) }, "ok")
+    | none => (st, "bad-op")
+  | ["gen", m, n, how] =>
+    -- reload: a new ControlPlane generation; the old generation's context is cancelled
+    match parseMode? m, n.toNat? with
+    | some m, some n =>
+      let s0 := Sys.cancelAll st.s
+      let w1 := step s0.w (.newGeneration m n)
+      let w2 := if how == "restore" then step (step w1 .dnsClose) (.dnsRestore w1.cache) else w1
+      ({ st with s := { s0 with w := w2 }, sn := [] }, "ok")
+    | _, _ => (st, "bad-op")
+  | ["negclean"] =>
+    let w1 := step w .negCleanup
+    let sn1 := sniffCleanup st.sn w.now
+    ({ setW st w1 with sn := sn1 }, s!"neg={w1.neg.length} sn={sn1.length}")
+  | ["sneg", dst, mta] =>
+    match parseDst? dst with
+    | some dst =>
+      let key := fmtAddrPort (converge dst) ++ '/' :: (parseMeta mta).1.toList
+      match st.sn.get key with
+      | some (f, e) => (st, if e ≤ w.now then "none" else s!"f={f}")
+      | none => (st, "none")
+    | none => (st, "bad-op")
+  | "conn" :: kob :: loc :: kind :: raw :: tmo :: rt0 :: rt1 :: rm0 :: rm1 :: nOut :: fail :: mta :: ans =>
+    match parseDst? loc, strOfHex? raw, tmo.toNat?, rm0.toNat?, rm1.toNat?, nOut.toNat?, ans.mapM parseAns? with
+    | some loc, some raw, some tmo, some rm0, some rm1, some nOut, some ans =>
+      match parsePayload? kind raw with
+      | none => (st, "bad-op")
+      | some pl =>
+        let (mname, mk) := parseMeta mta
+        let pm := match mk with | some (a, _) => a | none => 0
+        let kobN := kob.toNat?
+        let ob := kobN.getD outboundControlPlaneRouting
+        let dst := converge loc
+        let key := fmtAddrPort dst ++ '/' :: mname.toList
+        -- the routing-tuple lookup is retried when the tuple is missing
+        let pre : Int := if kobN.isNone then (st.retryNs : Int) else 0
+        let w0 := { w with now := w.now + pre }
+        let (sn1, d) := connDomain st.cfg w0 st.sn (tmo > 0) ob dst key pl
+        -- a silent client makes the prefetch wait for the whole sniffing timeout
+        let tried := shouldTryTcpSniff st.cfg w0 (tmo > 0) ob dst.port && !(sniffSkip st.cfg st.sn key w0.now).2
+        let wait : Int := if tried && pl == .silent then (tmo : Int) else 0
+        let w1 := { w0 with now := w0.now + wait }
+        let route : Str → Option Nat := fun n => if n = [] then rt0.toNat? else rt1.toNat?
+        let rmF : Str → Nat := fun n => if n = [] then rm0 else rm1
+        let (w2, outs, mark, probed) := runDial st.soMark pend w1 ob dst d route nOut fail (some (pm, rmF)) ans
+        let dialed := outs.any (·.outbound.isSome)
+        ({ setW st w2 with sn := sn1, connStart := w.now },
+         fmtDials outs mark probed (if dialed then some (pre + wait) else none) false)
+    | _, _, _, _, _, _, _ => (st, "bad-op")
+  | ["connend", ns] =>
+    match ns.toNat? with
+    | some ns => (setW st { w with now := st.connStart + (ns : Int) }, "ok")
+    | none => (st, "bad-op")
+  | _ =>
+    let (w1, out) := handleW st pend w line
+    (setW st w1, out)
+
+def main : IO Unit := lineLoopS ({} : Drv) handle
